@@ -576,8 +576,9 @@ def run_mixfit(tr, op, program):
         from . import digest as dg
         if op.get('method') == 'fit_predict':
             exp = models.bayes_posterior(kind, last, obs, emb)
+            p_tol = _posterior_tolerance(kind, last, obs, emb, None, 0.0, exp)
             if not isinstance(returned, np.ndarray) or returned.shape != exp.shape \
-                    or not np.max(np.abs(returned - exp)) <= 1e-10:
+                    or not np.max(np.abs(returned - exp)) <= p_tol:
                 tr.viol('R0', entry, 'fit_predict does not return the Bayes '
                         'posterior of the model of the last EM step',
                         **fault_note)
@@ -669,6 +670,26 @@ def run_mixfit(tr, op, program):
                    None if returned is None else __import__('sim.digest', fromlist=['x']).digest(returned)])
 
 
+def _posterior_tolerance(kind, model, obs, emb, sam=None, eps=0.0, exp=None):
+    """1e-10 + 1000 x the effect of a +-1 ulp perturbation of the inputs on
+    the Bayes posterior of ``model`` (conditioning allowance)."""
+    if exp is None:
+        exp = models.bayes_posterior(kind, model, obs, emb,
+                                     source_activity_mask=sam,
+                                     affiliation_eps=eps)
+    sign = 1.0 - 2.0 * (np.arange(obs.size).reshape(obs.shape) % 2)
+    obs_p = np.asarray(obs) * (1 + 2.3e-16 * sign)
+    emb_p = None if emb is None else np.asarray(emb) * (
+        1 + 2.3e-16 * (1.0 - 2.0 * (np.arange(emb.size).reshape(emb.shape) % 2)))
+    exp_p = models.bayes_posterior(kind, model, obs_p, emb_p,
+                                   source_activity_mask=sam, affiliation_eps=eps)
+    with np.errstate(invalid='ignore'):
+        cond = float(np.nanmax(np.abs(exp - exp_p))) if exp.size else 0.0
+    a_tol = 1e-10 + 1000 * (cond if np.isfinite(cond) else 0.0)
+    S.note('estep_conditioning_allowance', a_tol, 1e-3)
+    return a_tol
+
+
 def _check_estep(tr, kind, prev_model, obs, emb, z, aff, qf, sam, eps, op,
                  cacg_based, builtin_pa):
     q_exp = S.quadratic_form(prev_model.cacg, z) if cacg_based else None
@@ -689,6 +710,7 @@ def _check_estep(tr, kind, prev_model, obs, emb, z, aff, qf, sam, eps, op,
         spectral = prev_model.spectral_weight * np.transpose(
             np.reshape(spectral, (K, F, T)), (1, 0, 2))
         w = models.broadcast_weight(kind, prev_model, aff.shape)
+        a_tol = _posterior_tolerance(kind, prev_model, obs, emb, None, eps)
         nonid = False
         for f in range(F):
             ok = None
@@ -699,7 +721,7 @@ def _check_estep(tr, kind, prev_model, obs, emb, z, aff, qf, sam, eps, op,
                 a = a / np.maximum(a.sum(axis=-2, keepdims=True), np.finfo(float).tiny)
                 if eps:
                     a = np.clip(a, eps, 1 - eps)
-                if np.max(np.abs(a - aff[f])) <= 1e-10:
+                if np.max(np.abs(a - aff[f])) <= a_tol:
                     ok = p
                     break
             if ok is None:
@@ -718,9 +740,11 @@ def _check_estep(tr, kind, prev_model, obs, emb, z, aff, qf, sam, eps, op,
                                  source_activity_mask=sam, affiliation_eps=eps)
     if exp.shape != aff.shape:
         return f'posterior shape {aff.shape} vs {exp.shape}'
+    a_tol = _posterior_tolerance(kind, prev_model, obs, emb, sam, eps, exp)
     if 'aligner' in op:
         msg, res = S.find_common_permutation(
-            exp, aff, q_exp, qf, q_tol=q_tol if cacg_based else None)
+            exp, aff, q_exp, qf, atol=a_tol,
+            q_tol=q_tol if cacg_based else None)
         if msg:
             return msg
         if not res[1]:
@@ -765,8 +789,8 @@ def _check_estep(tr, kind, prev_model, obs, emb, z, aff, qf, sam, eps, op,
         tr.count('aligner_mapping_comparisons')
         return None
     d = float(np.max(np.abs(exp - aff)))
-    S.note('estep_affiliation', d, 1e-10)
-    if not d <= 1e-10:
+    S.note('estep_affiliation', d, a_tol)
+    if not d <= a_tol:
         return f'affiliation differs from the Bayes posterior of the previous ' \
                f'model (pi_k p_k / sum, mask, clip) by {d:.3e}'
     if cacg_based:
